@@ -34,11 +34,11 @@ func NewIOWriter(writer io.Writer) func(ro.Observable[[]byte]) ro.Observable[int
 				ro.NewObserverWithContext(
 					func(ctx context.Context, value []byte) {
 						n, err := writer.Write(value)
+						count += n // a failing Write may still have accepted some bytes
+
 						if err != nil {
 							destination.NextWithContext(ctx, count)
 							destination.ErrorWithContext(ctx, err)
-						} else {
-							count += n
 						}
 					},
 					func(ctx context.Context, err error) {
